@@ -280,6 +280,8 @@ func (jr *jpegReader) readExif() (err error) {
 		if err = jr.ExifReader(jr.br, exifHeader); err != nil {
 			return err
 		}
+		// The ExifReader consumed the Exif block directly from the reader
+		jr.discarded += exifLength
 		// Discard remaining bytes
 		remain = 0
 	}
@@ -304,6 +306,8 @@ func (jr *jpegReader) readXMP() (err error) {
 		if err = jr.XMPReader(r); err != nil {
 			return err
 		}
+		// Bytes the XMPReader consumed directly from the reader
+		jr.discarded += uint32(remain - int(r.(*io.LimitedReader).N))
 		// Discard remaining bytes
 		remain = int(r.(*io.LimitedReader).N)
 	}
